@@ -67,6 +67,45 @@ def roundtrip_plain(h, enc_cls, dec_cls, msg, mk_header, message_id, expect=None
     return out
 
 
+def roundtrip_err_info_any_length(h, mod, mk_header, message_id):
+    """C03 for the error-information codec over *every* string length (unbounded: the text is a
+    symbolic-length UTF-8 buffer).  1..255 bytes: exact round trip and vendor layout (AC number, length byte,
+    text); more than 255 bytes cannot be announced by the length byte: encode refuses with ValueError."""
+    info = h.string_any("error_info", min_bytes=1)
+    nbytes = h.length(h.utf8_view(info))
+    ac = h.int("ac_number", 0, 255)
+    msg = h.new(mod + ":AcErrorInformationMessage", ac_number=ac, error_info=info)
+    enc, dec = h.new(mod + ":AcErrorInformationEncoder"), h.new(mod + ":AcErrorInformationDecoder")
+    s = h.method(enc, "size", msg)
+    h.oblige("size() does not raise", s.ok)
+    if not s.ok:
+        return
+    h.oblige("announced size = AC number + length byte + text bytes", h.eq(s.value, 2 + nbytes))
+    hdr = mk_header(h, message_id, s.value)
+    e = h.method(enc, "encode", hdr, msg)
+    if h.branch(nbytes > 255):
+        h.oblige("a text longer than the length byte can announce is refused (ValueError), never truncated or wrapped", e.raised("ValueError"))
+        h.cover("too long refused")
+        return
+    h.oblige("encode() does not raise for a text of 1..255 bytes", e.ok)
+    if not e.ok:
+        return
+    out = h.frozen(e.value)
+    h.oblige("announced size == number of payload bytes produced", h.eq(h.length(out), s.value))
+    head, tail = h.split_at(out, 2)
+    h.oblige("wire: AC number, then the text length", And(head[0] == ac, head[1] == nbytes))
+    h.oblige("wire: then exactly the UTF-8 bytes of the text", h.eq(tail, h.utf8_view(info)))
+    d = h.method(dec, "decode", out, hdr)
+    h.oblige("decode() accepts the encoder's output", d.ok)
+    if not d.ok:
+        return
+    res = d.value
+    h.oblige("decoded message equals the original", h.eq(h.attr(res, "message"), msg))
+    h.oblige("nothing left over", h.eq(h.length(h.attr(res, "remaining")), 0))
+    h.oblige("assert_complete passes", h.method(res, "assert_complete").ok)
+    h.cover("roundtrip completes")
+
+
 def roundtrip_c0(h, enc_cls, dec_cls, msg, sub_id, expect=None):
     """C03 for an AT5 0xC0 sub-codec (non_repeat_size / repeat_count / repeat_size / encode)."""
     enc = h.new(enc_cls)
